@@ -295,5 +295,23 @@ theorem reply_first_prompt (ci : Str) (b : Behav) (rest : Str) (hc : CleanCmd ci
     · have : noPH (u0 ++ bannerText b.msg ++ []) = true := by
         rw [noPH_banner _ _ _ hm.noNL, hn0]; decide
       simpa using this
+  | afterLine pre post =>
+    have hm := hb.msg (by rw [hf]; simp)
+    have hline : ci ++ ['\n'] ++ b.out = u0 ++ ['\n'] := by simpa using hu0
+    -- the text in front of the prompt ends in a line feed: the banner's own, or the last empty line
+    obtain ⟨u', hu'⟩ : ∃ u', u0 ++ nls (pre + 1) ++ bannerText b.msg ++ nls post = u' ++ ['\n'] := by
+      cases post with
+      | zero => exact ⟨u0 ++ nls (pre + 1) ++ (bannerHead ++ b.msg ++ lit "\n***"), by
+          rw [bannerText_snoc]; simp [nls]⟩
+      | succ k => exact ⟨u0 ++ nls (pre + 1) ++ bannerText b.msg ++ nls k, by
+          rw [← nls_add k 1]; simp [nls]⟩
+    have hn' : noPH u' = true := by
+      apply noPH_drop_last
+      rw [← hu', noPH_banner _ _ _ hm.noNL, noPH_append_nls, hn0, router_not_prefix_nls, noPH_nls']; rfl
+    refine ⟨u', rest, ?_, hn', hr⟩
+    have e : ci ++ ['\n'] ++ b.out ++ nls pre ++ bannerText b.msg ++ nls post ++ prompt ++ rest =
+        (u0 ++ nls (pre + 1) ++ bannerText b.msg ++ nls post) ++ prompt ++ rest := by
+      rw [hline, nls_succ]; simp
+    rw [e, hu', promptFull_eq]; simp
 
 end NA.Ios
